@@ -741,8 +741,16 @@ impl Smb1Hdr {
     }
 }
 
+/// correlation ids: arbitrary, and the values clients really start with / reserve (0, 1, all ones)
+fn id16() -> impl Strategy<Value = u16> {
+    prop_oneof![5 => any::<u16>(), 1 => Just(0u16), 1 => Just(1u16), 1 => Just(0xffffu16), 1 => Just(0xfffeu16)]
+}
+fn id64() -> impl Strategy<Value = u64> {
+    prop_oneof![5 => any::<u64>(), 2 => Just(0u64), 1 => Just(1u64), 1 => Just(u64::MAX), 1 => any::<u32>().prop_map(|x| x as u64)]
+}
+
 pub fn smb1_hdr(command: u8) -> impl Strategy<Value = Smb1Hdr> {
-    (any::<u32>(), any::<u8>(), any::<u16>(), any::<u16>(), any::<[u8; 8]>(), any::<[u16; 4]>()).prop_map(move |(status, flags, flags2, pid_high, signature, ids)| Smb1Hdr {
+    (any::<u32>(), any::<u8>(), any::<u16>(), id16(), any::<[u8; 8]>(), (id16(), id16(), id16(), id16()).prop_map(|(a, b, c, d)| [a, b, c, d])).prop_map(move |(status, flags, flags2, pid_high, signature, ids)| Smb1Hdr {
         command,
         status,
         flags: flags & 0x7f,
@@ -804,7 +812,7 @@ impl Smb2Hdr {
 }
 
 pub fn smb2_hdr(command: u16) -> impl Strategy<Value = Smb2Hdr> {
-    (any::<u16>(), any::<u32>(), any::<u16>(), any::<u32>(), any::<u32>(), any::<[u64; 3]>(), any::<[u8; 16]>()).prop_map(move |(credit_charge, status, credits, flags, next_command, ids, signature)| Smb2Hdr {
+    (any::<u16>(), prop_oneof![2 => Just(0u32), 1 => any::<u32>()], any::<u16>(), any::<u32>(), prop_oneof![2 => Just(0u32), 1 => any::<u32>()], (id64(), id64(), id64()).prop_map(|(a, b, c)| [a, b, c]), any::<[u8; 16]>()).prop_map(move |(credit_charge, status, credits, flags, next_command, ids, signature)| Smb2Hdr {
         credit_charge,
         status,
         command,
